@@ -16,6 +16,15 @@ from healsparse.packedBoolArray import _PackedBoolArray  # noqa: E402
 
 import enc  # noqa: E402
 
+def RO(a):
+    """an input array handed to the library READ-ONLY: a call that modifies its caller's array (pixel numbers
+    shifted in place, weights zeroed in place, ...) raises instead of silently corrupting the caller's data —
+    the same array object may be used again by the caller (seeded change C15f)"""
+    a = np.asarray(a)
+    a.setflags(write=False)
+    return a
+
+
 VARIANTS_APPLIED = [0]      # legacy / foreign file variants actually applied (evidence)
 from enc import DTYPES, enc_cells, enc_nats, enc_ints, enc_bits, split_list, dec_val, dec_dy, parse_args  # noqa: E402
 
@@ -100,13 +109,13 @@ class Real(PackedOps, RandOps):
         if m.is_wide_mask_map:
             if not toks:
                 return np.zeros((0, m.wide_mask_width), dtype=np.uint8)
-            return np.array([dec_val(t) for t in toks], dtype=np.uint8)
+            return RO(np.array([dec_val(t) for t in toks], dtype=np.uint8))
         if m.is_rec_array:
             arr = np.zeros(len(toks), dtype=m.dtype)
             for i, t in enumerate(toks):
                 arr[i] = dec_val(t, dtype=m.dtype)[0]
-            return arr
-        return np.array([dec_val(t) for t in toks], dtype=m.dtype)
+            return RO(arr)
+        return RO(np.array([dec_val(t) for t in toks], dtype=m.dtype))
 
     def dense(self, m):
         return m.get_values_pix(np.arange(12 * m.nside_sparse ** 2, dtype=np.int64))
@@ -154,7 +163,7 @@ class Real(PackedOps, RandOps):
         """a malformed call of kind k= on map pos[0]; 'err' when the library refuses it, 'ok' when it does not"""
         m = self.m(pos[0])
         k = kv['k']
-        pix = np.array([int(t) for t in split_list(kv.get('pix', '0'))], dtype=np.int64)
+        pix = RO(np.array([int(t) for t in split_list(kv.get('pix', '0'))], dtype=np.int64))
         one = self.scalar_for(m, kv['val']) if 'val' in kv else None
         npix = 12 * m.nside_sparse ** 2
         rng2 = np.array([[0, 2], [4, 6]], dtype=np.int64)
@@ -263,7 +272,7 @@ class Real(PackedOps, RandOps):
 
     def op_upd(self, pos, kv):
         m = self.m(pos[0])
-        pix = np.array([int(t) for t in split_list(kv.get('pix', '_'))], dtype=np.int64)
+        pix = RO(np.array([int(t) for t in split_list(kv.get('pix', '_'))], dtype=np.int64))
         if kv.get('none') == '1':
             values = None
         elif 'val' in kv:
@@ -284,11 +293,11 @@ class Real(PackedOps, RandOps):
             else:
                 raise BadOp(via)
         elif 'ring' in kv:
-            ring = np.array([int(t) for t in split_list(kv['ring'])], dtype=np.int64)
+            ring = RO(np.array([int(t) for t in split_list(kv['ring'])], dtype=np.int64))
             m.update_values_pix(ring, values, nest=False, operation=kv.get('op', 'replace'))
         elif 'lon' in kv:
-            lon = np.array([float(t) for t in split_list(kv['lon'])])
-            lat = np.array([float(t) for t in split_list(kv['lat'])])
+            lon = RO(np.array([float(t) for t in split_list(kv['lon'])]))
+            lat = RO(np.array([float(t) for t in split_list(kv['lat'])]))
             m.update_values_pos(lon, lat, values, operation=kv.get('op', 'replace'))
         else:
             m.update_values_pix(pix, values, operation=kv.get('op', 'replace'))
@@ -297,7 +306,7 @@ class Real(PackedOps, RandOps):
     def op_updr(self, pos, kv):
         m = self.m(pos[0])
         rr = [t.split(':') for t in split_list(kv.get('ranges', '_'))]
-        ranges = np.array([[int(a), int(b)] for a, b in rr], dtype=np.int64).reshape((len(rr), 2))
+        ranges = RO(np.array([[int(a), int(b)] for a, b in rr], dtype=np.int64).reshape((len(rr), 2)))
         values = None if kv.get('none') == '1' else self.scalar_for(m, kv['val'])
         old = hsm.PIXEL_RANGE_THRESHOLD
         if 'thr' in kv:
@@ -319,16 +328,16 @@ class Real(PackedOps, RandOps):
         if 'slice' in kv:
             a, b, st = [int(t) for t in kv['slice'].split(':')]
             return enc_cells(m[a:b:st])
-        pix = np.array([int(t) for t in split_list(kv.get('pix', '_'))], dtype=np.int64)
+        pix = RO(np.array([int(t) for t in split_list(kv.get('pix', '_'))], dtype=np.int64))
         path = kv.get('path', 'pix')
         if 'ring' in kv:
-            ring = np.array([int(t) for t in split_list(kv['ring'])], dtype=np.int64)
+            ring = RO(np.array([int(t) for t in split_list(kv['ring'])], dtype=np.int64))
             if vm:
                 return enc_bits(m.get_values_pix(ring, nest=False, valid_mask=True))
             return enc_cells(m.get_values_pix(ring, nest=False))
         if 'lon' in kv:
-            lon = np.array([float(t) for t in split_list(kv['lon'])])
-            lat = np.array([float(t) for t in split_list(kv['lat'])])
+            lon = RO(np.array([float(t) for t in split_list(kv['lon'])]))
+            lat = RO(np.array([float(t) for t in split_list(kv['lat'])]))
             if kv.get('lonlat', '1') == '0':
                 res = m.get_values_pos(lon, lat, lonlat=False, valid_mask=vm)
             else:
@@ -491,7 +500,7 @@ class Real(PackedOps, RandOps):
 
     def op_bits(self, pos, kv):
         m = self.m(pos[0])
-        pix = np.array([int(t) for t in split_list(kv.get('pix', '_'))], dtype=np.int64)
+        pix = RO(np.array([int(t) for t in split_list(kv.get('pix', '_'))], dtype=np.int64))
         bits = [int(t) for t in split_list(kv.get('bits', '_'))]
         if kv.get('mode', 'set') == 'clear':
             m.clear_bits_pix(pix, bits)
@@ -501,7 +510,7 @@ class Real(PackedOps, RandOps):
 
     def op_chk(self, pos, kv):
         m = self.m(pos[0])
-        pix = np.array([int(t) for t in split_list(kv.get('pix', '_'))], dtype=np.int64)
+        pix = RO(np.array([int(t) for t in split_list(kv.get('pix', '_'))], dtype=np.int64))
         bits = [int(t) for t in split_list(kv.get('bits', '_'))]
         if kv.get('via') == 'pos':
             # check_bits_pos at the pixel centres (positions -> pixels is hpgeom's, trusted)
@@ -554,7 +563,8 @@ class Real(PackedOps, RandOps):
         summation order unless EVERY partial sum is exact.  Sufficient: all valid values are multiples of
         2^-K and the sum of their magnitudes stays below 2^24 * 2^-K.  Otherwise the exact model cannot
         predict the rounding and the history is discarded from here (`inexact`)."""
-        if red not in ('sum', 'mean', 'std', 'wmean') or m.is_rec_array or m.dtype != np.float32:
+        # (dtype compared by kind and size: a map read from a file is big-endian float32)
+        if red not in ('sum', 'mean', 'std', 'wmean') or m.is_rec_array or m.dtype.kind != 'f' or m.dtype.itemsize != 4:
             return False
         sp = np.asarray(m._sparse_map)
         vals = sp[sp != m._sentinel]
@@ -563,6 +573,8 @@ class Real(PackedOps, RandOps):
         ratios = [float(v).as_integer_ratio() for v in vals]
         K = max(d for _, d in ratios)
         total = sum(abs(n) * (K // d) for n, d in ratios)
+        if red == 'wmean':
+            total *= 32          # products with the weights (magnitude < 8, two fractional bits)
         return total >= 2 ** 24
 
     @staticmethod
@@ -573,7 +585,7 @@ class Real(PackedOps, RandOps):
         group of children the sum of |log2 |v|| over the non-zero values stays below the exponent range."""
         if red != 'prod' or m.is_rec_array or m.is_wide_mask_map or m.dtype.kind == 'b':
             return False
-        lim = 120.0 if m.dtype == np.float32 else 1000.0
+        lim = 120.0 if (m.dtype.kind == 'f' and m.dtype.itemsize == 4) else 1000.0
         vp = m.valid_pixels
         if vp.size == 0:
             return False
@@ -795,8 +807,8 @@ class Real(PackedOps, RandOps):
 
     def op_interp(self, pos, kv):
         m = self.m(pos[0])
-        lon = np.array([float(t) for t in split_list(kv['lon'])])
-        lat = np.array([float(t) for t in split_list(kv['lat'])])
+        lon = RO(np.array([float(t) for t in split_list(kv['lon'])]))
+        lat = RO(np.array([float(t) for t in split_list(kv['lat'])]))
         return enc_cells(m.interpolate_pos(lon, lat, allow_partial=(kv.get('partial') == '1')))
 
     def op_hpxwrite(self, pos, kv):
